@@ -262,7 +262,9 @@ def quiet(fn, *a, **kw):
 
 
 def observed_containers(eg):
-    return [(c.slices[0].left_point, c.slices[-1].right_point, len(c.slices)) for c in eg.slice_containers]
+    """[(left, right, number of slices)]; the end points are the caller's own coordinate objects -> Python scalars"""
+    left_right = plain([p for c in eg.slice_containers for p in (c.slices[0].left_point, c.slices[-1].right_point)])
+    return [(left_right[2 * i], left_right[2 * i + 1], len(c.slices)) for i, c in enumerate(eg.slice_containers)]
 
 
 # ----------------------------------------------------------------------------------------------------------------
@@ -290,6 +292,79 @@ def as_form(values, form):
     if form == "list-np.int64":
         return [np.int64(v) for v in values]
     raise ValueError("harness: unknown form %r" % (form,))
+
+
+# coordinate element types ("elem"): how the caller spells the numbers of one and the same grid
+#   float    Python float / np.float64 (the form the library's own refinement produces)
+#   int      every whole-number coordinate is an integer, as one writes [1, 1.5, 2, 2.5, 3] or [0, 1, 2, 4, 8] (the
+#            repository tests do): Python int in list/tuple, np.int64 next to np.float64 in a list of numpy scalars,
+#            an int64 ndarray if ALL coordinates are whole (NumPy promotes a mixed literal to float64 by itself)
+#   int32    as int, with np.int32 in the numpy forms
+#   float32  np.float32 scalars / a float32 ndarray (single precision data); only for grids whose coordinates and step
+#            widths are float32 numbers of moderate magnitude, see float32_applicable()
+ELEMS = ["float", "int", "float", "float32", "int", "float", "int32", "int", "float"]
+TOL32 = 1e-4          # relative tolerance for single precision input (the library then computes in single precision)
+
+
+def float32_applicable(all_xs):
+    """single precision spelling is offered only if it describes the SAME grid: every coordinate is a float32 number,
+    and cubes of the step widths (Romberg coefficients use h^2, h^3) stay far inside the float32 range"""
+    import numpy as np
+    flat = [x for xs in all_xs for x in xs]
+    if any(float(np.float32(x)) != x for x in flat):
+        return False
+    steps = [xs[i + 1] - xs[i] for xs in all_xs for i in range(len(xs) - 1)]
+    return min(steps) >= 2.0 ** -24 and max(abs(x) for x in flat) <= 2.0 ** 24
+
+
+def effective_elem(elem, all_xs):
+    """element type actually used for a case (pure function of the case): float32 / int32 fall back when they cannot
+    represent the grid"""
+    if elem == "float32" and not float32_applicable(all_xs):
+        return "float"
+    if elem == "int32" and max(abs(x) for xs in all_xs for x in xs) >= 2.0 ** 30:
+        return "int"
+    return elem
+
+
+def grid_arg(values, form):
+    """the coordinates `values` (exact floats) in container form form[0] with element type form[2]"""
+    import numpy as np
+    gform, elem = form[0], (form[2] if len(form) > 2 else "float")
+    if elem == "float":
+        return as_form(values, gform)
+    if elem == "float32":
+        if gform == "ndarray":
+            return np.array(values, dtype=np.float32)
+        vals = [np.float32(v) for v in values]
+        return tuple(vals) if gform == "tuple" else vals
+    if elem not in ("int", "int32"):
+        raise ValueError("harness: unknown element type %r" % (elem,))
+    npint = np.int64 if elem == "int" else np.int32
+    whole = [float(v).is_integer() for v in values]
+    if gform == "ndarray":
+        return np.array([int(v) for v in values], dtype=npint) if all(whole) else np.array(values, dtype=float)
+    if gform == "list-np.float64":
+        return [npint(int(v)) if w else np.float64(v) for v, w in zip(values, whole)]
+    vals = [int(v) if w else v for v, w in zip(values, whole)]
+    return tuple(vals) if gform == "tuple" else vals
+
+
+def coord_type_label(container):
+    """what the library is actually handed: container type and the set of element types"""
+    import numpy as np
+    if isinstance(container, np.ndarray):
+        return "ndarray[%s]" % container.dtype.name
+    return "%s[%s]" % (type(container).__name__, ",".join(sorted({type(v).__name__ for v in container})))
+
+
+def is_int_typed(v):
+    import numpy as np
+    return isinstance(v, (int, np.integer)) and not isinstance(v, bool)
+
+
+def tol_of(form):
+    return TOL32 if len(form) > 2 and form[2] == "float32" else TOL
 
 
 def plain(container):
@@ -330,9 +405,11 @@ class CallerArgs:
 
     def __init__(self, xs, levels, form):
         self.form = list(form)
-        self.g = as_form(xs, form[0])
+        self.g = grid_arg(xs, form)
         self.l = as_form(levels, form[1])
         self.g0, self.l0 = plain(self.g), plain(self.l)
+        self.ints0 = [is_int_typed(v) for v in self.g]     # per grid point: handed over integer-typed?
+        self.lab = "%s+%s" % (coord_type_label(self.g), self.form[1])
         self.types = (type(self.g), type(self.l))
 
     def unmodified(self):
@@ -348,20 +425,53 @@ class CallerArgs:
         return plain(self.g) != self.g0 or plain(self.l) != self.l0
 
     def label(self):
-        return "%s+%s" % tuple(self.form)
+        return self.lab
 
 
-def aliasing_params(case):
-    return (case.get("form", ["list", "list"]), case.get("mod", "none"), case.get("mod_when", "before"), case.get("mod_at", 0))
+
+def aliasing_params(case, all_xs):
+    """(form, mod, when, at); form = [grid container form, level container form, coordinate element type]. all_xs = all
+    grids of the case (the element type falls back to one that can spell every grid of the case)"""
+    form = list(case.get("form", ["list", "list"]))[:2] + [effective_elem(case.get("elem", "float"), all_xs)]
+    return (form, case.get("mod", "none"), case.get("mod_when", "before"), case.get("mod_at", 0))
 
 
 def draw_aliasing(draw):
-    return dict(form=draw(st.sampled_from(FORM_PAIRS)), mod=draw(st.sampled_from(MODS)),
+    return dict(form=draw(st.sampled_from(FORM_PAIRS)), elem=draw(st.sampled_from(ELEMS)), mod=draw(st.sampled_from(MODS)),
                 mod_when=draw(st.sampled_from(["before", "between"])), mod_at=draw(st.integers(0, 40)))
 
 
+def coord_classes(out, case, form, all_xs):
+    """classes of the coordinate spelling: requested/used element type and what the containers really hold"""
+    out.cls("coord-elem=%s" % form[2])
+    if case.get("elem", "float") != form[2]:
+        out.cls("coord-elem-fallback=%s->%s" % (case.get("elem"), form[2]))
+    for xs in all_xs:
+        g = grid_arg(xs, form)
+        out.cls("coord-type=" + coord_type_label(g))
+        ints = [is_int_typed(v) for v in g]
+        if all(ints):
+            out.cls("coords=all-integer-typed")
+        elif any(ints):
+            out.cls("coords=mixed-int-float")
+
+
+def int_container_classes(out, args, containers):
+    """class: a container with >= 2 slices all of whose points were handed over integer-typed / mixed"""
+    ints = args.ints0
+    pts = args.g0
+    for (left, right, n) in containers:
+        if n < 2:
+            continue
+        inside = [t for x, t in zip(pts, ints) if left <= x <= right]
+        if inside and all(inside):
+            out.cls("container>=2-slices-all-integer-typed")
+        elif any(inside):
+            out.cls("container>=2-slices-mixed-int-float")
+
+
 def aliasing_classes(out, form, mod, when, modified):
-    out.cls("arg-form=%s+%s" % tuple(form))
+    out.cls("arg-form=%s+%s" % tuple(form[:2]))
     if modified:
         out.cls("caller-modified=%s-%s-get_weights" % (mod, when))
     elif mod != "none":
@@ -398,7 +508,7 @@ def call_after_modification(fn, *a):
         return None, (e, frag)
 
 
-def judge_weights(out, sub, w, used_xs, a, H, cfg, containers, tag, suffix=""):
+def judge_weights(out, sub, w, used_xs, a, H, cfg, containers, tag, suffix="", rtol=TOL):
     """len / sum / linear clauses for one weight vector. cfg = (sg, sv, cv, force).
     Returns 'ok', 'simpson' (deviation explained by the known Simpson cause) or 'bad'."""
     sg, sv, cv, force = cfg
@@ -410,7 +520,7 @@ def judge_weights(out, sub, w, used_xs, a, H, cfg, containers, tag, suffix=""):
         return "bad"
     ts = ts_of(a, H, used_xs)
     dev0, dev1, scale = check_sum_linear(w, ts, H)
-    tol = TOL * scale
+    tol = rtol * scale
     simpson = False
     status = "ok"
     if abs(dev0) > tol or abs(dev1) > tol:
@@ -435,8 +545,8 @@ def judge_weights(out, sub, w, used_xs, a, H, cfg, containers, tag, suffix=""):
             if abs(dev1) > tol:
                 out.bad("%s/linear/%s" % (sub, where), "sum(w*(t-1/2)) = %.6g (tol %.2g, simpson prediction %.6g); containers=%s; %s"
                         % (dev1, tol, p1, containers[:10], desc))
-    out.info["max_abs_dev_over_H"] = max(out.info.get("max_abs_dev_over_H", 0.0),
-                                         0.0 if simpson else max(abs(dev0), abs(dev1)) / abs(H))
+    key = "max_abs_dev_over_H" if rtol == TOL else "max_abs_dev_over_H(float32 input)"
+    out.info[key] = max(out.info.get(key, 0.0), 0.0 if simpson else max(abs(dev0), abs(dev1)) / abs(H))
     return status
 
 
@@ -465,7 +575,8 @@ def run_sliced(case):
     lin = Polynomial1d([c0, c1])
     lin_exact = float(F(c0) * (F(b) - F(a)) + F(c1) * (F(b) ** 2 - F(a) ** 2) / 2)
     any_multi = any_simpson = added = any_modified = False
-    form, mod, when, at = aliasing_params(case)
+    form, mod, when, at = aliasing_params(case, [xs, xs2])
+    rtol = tol_of(form)
     f_lin = lambda x: c0 + c1 * x
     for cfg in all_configs():
         sg, sv, cv, force = cfg
@@ -499,8 +610,10 @@ def run_sliced(case):
         containers = observed_containers(eg)
         multi = any(n >= 2 for (_, _, n) in containers)
         any_multi = any_multi or (multi and sg != "UNIT" and not force)
+        if sg != "UNIT" and not force:
+            int_container_classes(out, args, containers)
         status = judge_weights(out, sub, w, used, a, H, cfg, containers, "fresh form=%s caller-mod=%s" % (args.label(), mod if modified else "none"),
-                               suffix if when == "before" else "")
+                               suffix if when == "before" else "", rtol)
         any_simpson = any_simpson or status == "simpson"
         # the same call again must give the same weights (no hidden state in slices/containers, none in the caller's lists)
         w_again = floats(eg.get_weights()) if (max(levels) <= 16 or modified) else w       # (skipped on deep chains: cost)
@@ -515,9 +628,9 @@ def run_sliced(case):
         # integrate() must use the new weights; its answers are the reference for object A
         if len(xs2) >= 3 or not force:
             eg2 = make_grid(*cfg)
-            quiet(eg2.set_grid, as_form(xs2, form[0]), as_form(levels2, form[1]))
+            quiet(eg2.set_grid, grid_arg(xs2, form), as_form(levels2, form[1]))
             quiet(eg2.integrate, lin)
-            quiet(eg2.set_grid, as_form(xs, form[0]), as_form(levels, form[1]))
+            quiet(eg2.set_grid, grid_arg(xs, form), as_form(levels, form[1]))
             val = quiet(eg2.integrate, lin)
             w2 = floats(eg2.get_weights())
             if w2 != w:
@@ -529,10 +642,10 @@ def run_sliced(case):
                     out.bad(sub + "/reused-object-weights-differ", "weights after set_grid(other); set_grid(this) differ from a "
                             "fresh object; form=%s cfg=%s" % (args.label(), cfg))
             elif ref is not None:
-                if abs(float(val) - ref) > TOL * sc:
+                if abs(float(val) - ref) > rtol * sc:
                     out.bad(sub + "/integrate-differs-from-weights", "integrate(lin)=%r, sum(w*f(x))=%r after re-using the object; "
                             "cfg=%s" % (val, ref, cfg))
-                elif status == "ok" and abs(float(val) - lin_exact) > TOL * sc:
+                elif status == "ok" and abs(float(val) - lin_exact) > rtol * sc:
                     out.bad(sub + "/integrate-linear", "integrate(%s+%s x)=%r exact %r; cfg=%s" % (c0, c1, val, lin_exact, cfg))
         # object A again: integrate() after the caller changed its lists must still be sum(w*f(x)) on the given grid
         if modified and ref is not None:
@@ -547,24 +660,26 @@ def run_sliced(case):
                             % (mod, str(e)[:60], len(cur), len(w), cfg))
                 else:
                     out.bad("%s/exception/%s%s" % (sub, frag, MODSUF), "%s: %s; caller-mod=%s cfg=%s" % (type(e).__name__, e, mod, cfg))
-            elif abs(float(valA) - ref) > TOL * sc:
+            elif abs(float(valA) - ref) > rtol * sc:
                 pred = math.fsum(wi * f_lin(x) for wi, x in zip(w, cur)) if len(cur) == len(w) else None
-                if reads_callers_list and pred is not None and abs(float(valA) - pred) <= TOL * sc:
+                if reads_callers_list and pred is not None and abs(float(valA) - pred) <= rtol * sc:
                     out.bad(sub + "/integrate-reads-callers-list" + MODSUF, "integrate(lin)=%r after the caller %s its list, sum(w*f(x)) on the grid "
                             "given to set_grid is %r; the value equals sum(w_i*f(callers_list[i]))=%r (the object holds the caller's list, same "
                             "object); cfg=%s" % (valA, mod, ref, pred, cfg))
                 else:
                     out.bad(sub + "/integrate" + MODSUF, "integrate(lin)=%r after the caller %s its list, expected %r; cfg=%s" % (valA, mod, ref, cfg))
-        # object C: the same grid as plain Python lists (only when another form is in use)
-        if form != ["list", "list"] and len(w) == len(used):
+        # object C: the same grid as plain Python lists of floats (only when another form / element type is in use):
+        # two spellings of one grid must give the same weights
+        if form != ["list", "list", "float"] and len(w) == len(used):
             eg3 = make_grid(*cfg)
             quiet(eg3.set_grid, list(xs), list(levels))
             w3 = floats(eg3.get_weights())
-            tolw = 1e-13 * max(abs(H), math.fsum(abs(x) for x in w))
+            tolw = (1e-13 if rtol == TOL else rtol) * max(abs(H), math.fsum(abs(x) for x in w))
             if len(w3) != len(w) or any(abs(x - y) > tolw for x, y in zip(w, w3)):
                 out.bad("%s/weights/argument-form=%s" % (sub, args.label()), "weights for the grid passed as %s differ from the weights "
-                        "for plain lists: %s vs %s; cfg=%s" % (args.label(), w[:6], w3[:6], cfg))
+                        "for plain lists of floats: %s vs %s; cfg=%s" % (args.label(), w[:6], w3[:6], cfg))
     aliasing_classes(out, form, mod, when, any_modified)
+    coord_classes(out, case, form, [xs, xs2])
     nwidths = distinct_widths(ts)
     runs = equal_width_runs(ts)
     out.nontrivial = nwidths >= 3 and any_multi
@@ -598,8 +713,13 @@ def _quantised(x, bits=11):
 SCALES = {"2^-40": 2.0 ** -40, "2^-30": 2.0 ** -30, "1e-9": _quantised(1e-9), "1e-7": _quantised(1e-7),
           "1e-6": _quantised(1e-6), "1e-3": _quantised(1e-3), "1e3": _quantised(1e3), "2^20": 2.0 ** 20}
 # 8 of 17 entries are unusual units; interleaved, because sampled_from prefers the front of the list
+# + 4 of 21: "whole-numbers" = coordinates counted in cells of the finest (or second/third finest) level, so that all
+# (most) grid points are whole numbers - the grids on which integer-typed coordinates are natural
+WHOLE = "whole-numbers"
 SCALE_LABELS = [x for pair in zip(["2^-30", "1e-9", "2^-40", "1e-7", "2^20", "1e-6", "1e3", "1e-3"], ["1"] * 8) for x in pair] + ["1"]
-assert sorted(set(SCALE_LABELS) - {"1"}) == sorted(SCALES)
+for _i in (1, 6, 11, 16):
+    SCALE_LABELS.insert(_i, WHOLE)
+assert sorted(set(SCALE_LABELS) - {"1", WHOLE}) == sorted(SCALES)
 
 
 def _low_bit(x):
@@ -626,6 +746,13 @@ def tree_params(draw, tier, depth):
     label = draw(st.sampled_from(SCALE_LABELS))
     sc = SCALES.get(label, 1.0)
     mode = draw(st.sampled_from(["scaled", "scaled", "scaled", "zero", "unscaled"]))
+    if label == WHOLE:
+        # length = odd * 2^(depth-j) cells, whole-number offset: every point (j=0) or every point down to level
+        # depth-j is a whole number, the deeper ones are halves / quarters
+        odd = draw(st.sampled_from([1, 1, 3, 5, 7]))
+        j = draw(st.sampled_from([0, 0, 0, 1, 2]))
+        a = 0.0 if mode == "zero" else float(k)
+        return a, float(odd * 2 ** max(depth - j, 0)), label, ("zero" if a == 0.0 else "whole")
     H = H0 * sc
     candidates = {"scaled": [k / 8.0 * sc, 0.0], "zero": [0.0], "unscaled": [k / 8.0, k / 8.0 * sc, 0.0]}[mode]
     for idx, a in enumerate(candidates):
@@ -706,19 +833,27 @@ def sliced_fixed():
         dict(a=0.0, H=2.0 ** -30, scale="2^-30", offset="zero", base=2, splits=[], base2=1, splits2=[], lin=[1, 2]),
         dict(a=1.0, H=2.0 ** -30, scale="2^-30", offset="unscaled", base=2, splits=[1], base2=1, splits2=[], lin=[1, 2]),
         dict(a=3.0 * 2 ** 20, H=2.0 ** 21, scale="2^20", offset="scaled", base=2, splits=[1], base2=1, splits2=[], lin=[1, 2]),
+        # the spellings of the repository tests, [1, 1.5, 2, 2.5, 3] and [1, 2, 2.25, 2.5, 3] (whole numbers as ints), an
+        # all-whole adaptive grid [2, 3, 4, 6, 10] as ints / int64 array / float32 array, a complete one on [-4, 4]
+        dict(a=1.0, H=2.0, base=2, splits=[], base2=1, splits2=[], lin=[1, 2], elem="int"),
+        dict(a=1.0, H=2.0, base=1, splits=[1, 1], base2=1, splits2=[], lin=[1, 2], elem="int", form=["tuple", "tuple"]),
+        dict(a=2.0, H=8.0, scale=WHOLE, offset="whole", base=1, splits=[0, 0], base2=1, splits2=[], lin=[1, 2], elem="int"),
+        dict(a=2.0, H=8.0, scale=WHOLE, offset="whole", base=1, splits=[0, 0], base2=1, splits2=[], lin=[1, 2], elem="int", form=["ndarray", "list"]),
+        dict(a=2.0, H=8.0, scale=WHOLE, offset="whole", base=1, splits=[0, 0], base2=1, splits2=[], lin=[1, 2], elem="float32", form=["ndarray", "list"]),
+        dict(a=-4.0, H=8.0, scale=WHOLE, offset="whole", base=3, splits=[], base2=2, splits2=[], lin=[-1, 3], elem="int32", form=["list-np.float64", "list-np.int64"]),
     ]
 
 
 # ----------------------------------------------------------------------------------------------------------------
 # sub: complete
 # ----------------------------------------------------------------------------------------------------------------
-def balanced_weights(out, sub, xs, levels, case, other_xs, other_levels):
+def balanced_weights(out, sub, xs, levels, case, other_xs, other_levels, all_xs=None):
     """weights of BalancedExtrapolationGrid for the grid (xs, levels) from an object that was given private copies (the
     reference, judged by the callers' oracles); a second object is given containers which the caller keeps using."""
     from sparseSpACE.Extrapolation import BalancedExtrapolationGrid
-    form, mod, when, at = aliasing_params(case)
+    form, mod, when, at = aliasing_params(case, all_xs or [xs, other_xs])
     ref_obj = BalancedExtrapolationGrid()
-    quiet(ref_obj.set_grid, as_form(xs, form[0]), as_form(levels, form[1]))
+    quiet(ref_obj.set_grid, grid_arg(xs, form), as_form(levels, form[1]))
     w_ref = floats(ref_obj.get_weights())
     args = CallerArgs(xs, levels, form)
     bg = BalancedExtrapolationGrid()
@@ -751,14 +886,14 @@ def balanced_weights(out, sub, xs, levels, case, other_xs, other_levels):
                     "that was given private copies: %s vs %s (form %s, caller-mod=%s)" % (w[:6], w_ref[:6], args.label(), mod if after_mod else "none"))
     if not modified and not args.unmodified():
         out.bad(sub + "/get_weights/caller-argument-modified", "BalancedExtrapolationGrid.get_weights changed the caller's containers")
-    if form != ["list", "list"]:
+    if form != ["list", "list", "float"]:
         plain_obj = BalancedExtrapolationGrid()
         quiet(plain_obj.set_grid, list(xs), list(levels))
         w3 = floats(plain_obj.get_weights())
-        tolw = 1e-13 * max(abs(xs[-1] - xs[0]), math.fsum(abs(x) for x in w_ref))
+        tolw = (1e-13 if form[2] != "float32" else TOL32) * max(abs(xs[-1] - xs[0]), math.fsum(abs(x) for x in w_ref))
         if len(w3) != len(w_ref) or any(abs(x - y) > tolw for x, y in zip(w_ref, w3)):
             out.bad("%s/weights/argument-form=%s" % (sub, args.label()), "balanced weights for the grid passed as %s differ from the weights "
-                    "for plain lists: %s vs %s" % (args.label(), w_ref[:6], w3[:6]))
+                    "for plain lists of floats: %s vs %s" % (args.label(), w_ref[:6], w3[:6]))
     return w_ref, modified
 
 
@@ -773,8 +908,9 @@ def run_complete(case):
     ts = complete_ts(m)
     xs, levels = to_grid(a, H, ts)
     worst = 0.0
-    form, mod, when, at = aliasing_params(case)
     other_xs, other_levels = to_grid(a, H, complete_ts(m + 1))      # what the caller refills its buffers with
+    form, mod, when, at = aliasing_params(case, [xs, other_xs])
+    rtol = tol_of(form)
     any_modified = False
     for cfg in all_configs():
         sg, sv, cv, force = cfg
@@ -809,31 +945,34 @@ def run_complete(case):
             if bad_tree:
                 continue
         containers = observed_containers(eg)
-        status = judge_weights(out, sub, w, used, a, H, cfg, containers, "complete m=%d form=%s caller-mod=%s" % (m, args.label(), mod if suffix else "none"), suffix)
+        if sg != "UNIT" and not force:
+            int_container_classes(out, args, containers)
+        status = judge_weights(out, sub, w, used, a, H, cfg, containers, "complete m=%d form=%s caller-mod=%s" % (m, args.label(), mod if suffix else "none"), suffix, rtol)
         if changed or len(w) != len(xs) or not default_romberg_effective(sg, sv, cv):
             continue
         for k, basis, err, scale in moment_errors([float(x) for x in w], ts, H, 2 * m + 1):
             worst = max(worst, err / scale)
-            if err > TOL * scale:
+            if err > rtol * scale:
                 out.bad("%s/degree/sliced-%s%s" % (sub, "grouped" if sg != "UNIT" else "unit", suffix),
-                        "depth m=%d grouping=%s slices=%s containers=%s forced=%s: monomial %s^%d (<= 2m+1=%d) error %.3g "
-                        "(tol %.2g) on [%r,%r]" % (m, sg, sv, cv, force, basis, k, 2 * m + 1, err, TOL * scale, a, a + H))
+                        "depth m=%d grouping=%s slices=%s containers=%s forced=%s form=%s: monomial %s^%d (<= 2m+1=%d) error %.3g "
+                        "(tol %.2g) on [%r,%r]" % (m, sg, sv, cv, force, args.label(), basis, k, 2 * m + 1, err, rtol * scale, a, a + H))
                 break
     w, bal_modified = balanced_weights(out, sub, xs, levels, case, other_xs, other_levels)
     aliasing_classes(out, form, mod, when, any_modified or bal_modified)
+    coord_classes(out, case, form, [xs])
     if len(w) != len(xs):
         out.bad(sub + "/length/balanced", "%d weights for %d points" % (len(w), len(xs)))
     else:
         for k, basis, err, scale in moment_errors(w, ts, H, 2 * m - 1):
             worst = max(worst, err / scale)
-            if err > TOL * scale:
+            if err > rtol * scale:
                 out.bad("%s/degree/balanced" % sub, "depth m=%d balanced grid: monomial %s^%d (<= 2m-1=%d) error %.3g (tol %.2g) on "
-                        "[%r,%r]" % (m, basis, k, 2 * m - 1, err, TOL * scale, a, a + H))
+                        "[%r,%r]" % (m, basis, k, 2 * m - 1, err, rtol * scale, a, a + H))
                 break
     out.nontrivial = m >= 2
     out.cls("m=%d" % m)
     scale_classes(out, case.get("scale", "1"), case.get("offset", "scaled"), m)
-    out.info.update(max_depth=m, max_rel_moment_error=worst)
+    out.info.update({"max_depth": m, "max_rel_moment_error" if rtol == TOL else "max_rel_moment_error(float32 input)": worst})
     return out
 
 
@@ -853,7 +992,11 @@ def complete_fixed():
            [dict(a=a, H=H, scale=lab, offset=mode, m=m)
             for (a, H, lab, mode) in [(0.0, 2.0 ** -30, "2^-30", "zero"), (1.0, 2.0 ** -30, "2^-30", "unscaled"),
                                       (-3.0 * 2.0 ** -40, 2.0 ** -40, "2^-40", "scaled"), (2.0 ** 20, 3.0 * 2 ** 20, "2^20", "scaled")]
-            for m in (2, 4, 6)]
+            for m in (2, 4, 6)] + \
+           [dict(a=a, H=H, scale=WHOLE, offset=mode, m=m, elem=elem, form=form)
+            for (a, H, mode) in [(0.0, 64.0, "zero"), (-5.0, 3.0 * 32, "whole")]
+            for (elem, form) in [("int", ["list", "list"]), ("int", ["ndarray", "tuple"]), ("float32", ["list", "list"])]
+            for m in (2, 3, 5)]
 
 
 # ----------------------------------------------------------------------------------------------------------------
@@ -879,22 +1022,27 @@ def run_balanced(case):
             out.cls("forced-tree-invalid(skipped)")   # reported by sub bintree, not here
             return out
         ts = ts_of(a, H, xs)
-    form, mod, when, at = aliasing_params(case)
     other_xs, other_levels = to_grid(a, H, complete_ts(2))
-    w, modified = balanced_weights(out, sub, xs, levels, case, other_xs, other_levels)
+    a2, H2 = case["a2"], case["H2"]
+    xs_b, _ = to_grid(a2, H2, ts)
+    all_xs = [xs, other_xs, xs_b]
+    form, mod, when, at = aliasing_params(case, all_xs)
+    rtol = tol_of(form)
+    w, modified = balanced_weights(out, sub, xs, levels, case, other_xs, other_levels, all_xs)
     aliasing_classes(out, form, mod, when, modified)
+    coord_classes(out, case, form, [xs, xs_b])
     desc = "a=%r H=%r grid=%s levels=%s" % (a, H, xs[:30], levels[:30])
     if len(w) != len(xs):
         out.bad(sub + "/length/balanced", "%d weights for %d points; %s" % (len(w), len(xs), desc))
         return out
     dev0, dev1, scale = check_sum_linear(w, ts, H)
-    if abs(dev0) > TOL * scale:
-        out.bad(sub + "/sum/balanced", "sum(w)-(b-a)=%.6g (tol %.2g); %s" % (dev0, TOL * scale, desc))
-    if abs(dev1) > TOL * scale:
-        out.bad(sub + "/linear/balanced", "sum(w*(t-1/2))=%.6g (tol %.2g); %s" % (dev1, TOL * scale, desc))
+    if abs(dev0) > rtol * scale:
+        out.bad(sub + "/sum/balanced", "sum(w)-(b-a)=%.6g (tol %.2g); form=%s %s" % (dev0, rtol * scale, form, desc))
+    if abs(dev1) > rtol * scale:
+        out.bad(sub + "/linear/balanced", "sum(w*(t-1/2))=%.6g (tol %.2g); form=%s %s" % (dev1, rtol * scale, form, desc))
+    key = "max_abs_dev_over_H" if rtol == TOL else "max_abs_dev_over_H(float32 input)"
+    out.info[key] = max(abs(dev0), abs(dev1)) / abs(H)
     # global wrapper (no boundary): inner weights of every dimension equal the direct ones; second dimension is another interval
-    a2, H2 = case["a2"], case["H2"]
-    xs_b, _ = to_grid(a2, H2, ts)
     gg = GlobalBalancedRombergGrid([a, a2], [a + H, a2 + H2], boundary=False)
     gargs = [CallerArgs(xs, levels, form), CallerArgs(xs_b, levels, form)]
     quiet(gg.set_grid, [g.g for g in gargs], [g.l for g in gargs])
@@ -906,9 +1054,9 @@ def run_balanced(case):
             out.bad(sub + "/length/global-balanced", "dimension %d: %d weights for %d inner points" % (d, len(wd), len(xx) - 2))
             continue
         dev0, dev1, scale = check_sum_linear(wd, ts[1:-1], HH)
-        if abs(dev0) > TOL * scale:
+        if abs(dev0) > rtol * scale:
             out.bad(sub + "/sum/global-balanced", "dimension %d sum(w)-(b-a)=%.6g; a=%r H=%r" % (d, dev0, aa, HH))
-        if abs(dev1) > TOL * scale:
+        if abs(dev1) > rtol * scale:
             out.bad(sub + "/linear/global-balanced", "dimension %d sum(w*(t-1/2))=%.6g; a=%r H=%r" % (d, dev1, aa, HH))
     nw = distinct_widths(ts)
     out.nontrivial = nw >= 3 and len(xs) >= 7
@@ -970,7 +1118,7 @@ def run_bintree(case):
         ts = tree_from_splits(base, splits)
         trees.append((ts,) + to_grid(a, H, ts))
     added = modified = False
-    form, mod, when, at = aliasing_params(case)
+    form, mod, when, at = aliasing_params(case, [t[1] for t in trees])
     for idx, (ts, xs, levels) in enumerate(trees):     # the singleton is re-used: other tree first, then this one
         tree = GridBinaryTree()
         args = CallerArgs(xs, levels, form)
@@ -1013,6 +1161,7 @@ def run_bintree(case):
         out.cls("depth>=8")
     scale_classes(out, case.get("scale", "1"), case.get("offset", "scaled"), max(levels))
     aliasing_classes(out, form, mod, when, modified)
+    coord_classes(out, case, form, [t[1] for t in trees])
     return out
 
 
@@ -1069,7 +1218,9 @@ def run_global(case):
         sets.append((pts, lvs, tss))
     first = {}
     any_multi = any_simpson = repeated = any_modified = False
-    form, mod, when, at = aliasing_params(case)
+    all_xs = [xs for (pts, _, _) in sets for xs in pts]
+    form, mod, when, at = aliasing_params(case, all_xs)
+    rtol = tol_of(form)
     nw = 0
     for step, k in enumerate(case["seq"]):
         k = k % nsets
@@ -1093,12 +1244,14 @@ def run_global(case):
                 out.bad(sub + "/coordinates-changed", "step %d dim %d" % (step, d))
                 continue
             eg = make_grid(sg, sv, cv, False)          # fresh, uncached reference for container structure and weights
-            quiet(eg.set_grid, as_form(pts[d], form[0]), as_form(lvs[d], form[1]))
+            quiet(eg.set_grid, grid_arg(pts[d], form), as_form(lvs[d], form[1]))
             containers = observed_containers(eg)
+            if sg != "UNIT":
+                int_container_classes(out, gargs[d], containers)
             any_multi = any_multi or any(n >= 2 for (_, _, n) in containers)
             nw = max(nw, distinct_widths(tss[d]))
             status = judge_weights(out, sub, w, pts[d], dims[d]["a"], dims[d]["H"], (sg, sv, cv, False), containers,
-                                    "global step %d dim %d do_cache=%s form=%s" % (step, d, case["do_cache"], gargs[d].label()), suffix)
+                                    "global step %d dim %d do_cache=%s form=%s" % (step, d, case["do_cache"], gargs[d].label()), suffix, rtol)
             any_simpson = any_simpson or status == "simpson"
             fresh = [float(x) for x in eg.get_weights()]
             if w != fresh:
@@ -1114,6 +1267,7 @@ def run_global(case):
     out.nontrivial = nw >= 3 and any_multi and repeated
     out.cls("dim=%d" % dim, "cache=%s" % case["do_cache"])
     aliasing_classes(out, form, mod, when, any_modified)
+    coord_classes(out, case, form, all_xs)
     for d in range(dim):
         scale_classes(out, dims[d].get("scale", "1"), dims[d].get("offset", "scaled"),
                       max(max(lv[d]) for (_, lv, _) in sets))
